@@ -63,17 +63,15 @@ def main():
                 meta['own_tests_new_failures'] = sorted(set(f1) - set(f0))
         base = subprocess.run([PY, '-m', 'pytest', '-q', '-p', 'no:cacheprovider', '--timeout=900', '--continue-on-collection-errors'], cwd=patched, capture_output=True, text=True)
         meta['pinned_baseline_patched'] = (re.findall(r'(\d+ failed.*|\d+ passed.*)', base.stdout) or ['?'])[-1]
-        ev_backup = scratch + '/ev'
-        shutil.copytree(HERE + '/evidence', ev_backup)
+        os.makedirs(scratch + '/ev')
         meta['checks'] = {}
         for c in checks:
             t0 = time.time()
-            rc, out = run([HERE + '/check', c, '--tier', a.tier], cwd=HERE, env={'VERIF_REPO': patched}, timeout=3600)
+            rc, out = run([HERE + '/check', c, '--tier', a.tier], cwd=HERE, env={'VERIF_REPO': patched, 'VERIF_EVIDENCE_DIR': scratch + '/ev'}, timeout=3600)
             keys = sorted(set(re.findall(r'# (\S+):', out)))
             meta['checks'][c] = {'exit': rc, 'violation_lines': len(re.findall(r'^VIOLATION', out, re.M)), 'keys': keys[:12], 'wall_s': round(time.time() - t0, 1),
                                  'inconclusive': re.findall(r'^INCONCLUSIVE.*', out, re.M)[:2]}
             print(f'check {c}: exit {rc}, {meta["checks"][c]["violation_lines"]} violation line(s): {keys[:4]}')
-        shutil.rmtree(HERE + '/evidence'); shutil.copytree(ev_backup, HERE + '/evidence')
         ok = meta['patch_applies'] and rc0 == 0 and rc1 != 0
         return finish(a, meta, keep=ok)
     finally:
